@@ -192,6 +192,36 @@ def simulate(shape, op):
         if k == "spy":
             obs.append({"sid": next(sid), "depth": len(chain) - 1, "x": [c.get("x", MISSING) for c in chain[:-1]], "index": [c.get("_index", None) for c in chain]})
             return None
+        if k == "rep":
+            # a named repeater "r" of n data bytes (Array / GreedyRange inside a sized region / RepeatUntil), discard on or off:
+            # what later siblings see under its name is the list (empty with discard) in parse and in build alike
+            rk, n, discard = node[1], node[2], node[3]
+            if op == "sizeof":
+                if rk == "until":
+                    raise Stop()               # (the GreedyRange sits inside a FixedSized region: sized)
+                return MISSING
+            out.extend(range(1, n + 1))
+            cur["_index"] = ANY
+            return [] if discard else list(range(1, n + 1))
+        if k == "deplen":
+            rr = cur.get("r", MISSING)
+            n = len(rr) if isinstance(rr, list) else MISSING
+            obs.append({"sid": "dep", "path": "len_(this.r)", "value": n})
+            if isinstance(n, int) and op != "sizeof":
+                out.extend(bytes([0xd0 + n]) * n)
+                return None
+            raise Stop()
+        if k == "fwdu":
+            # a member rebuilt from a LATER sibling whose name starts with an underscore (supplied siblings are visible from the
+            # start while building, whatever their name)
+            if op == "sizeof":
+                return None
+            out.append(DV)
+            return DV
+        if k == "yu":
+            if op != "sizeof":
+                out.append(DV)
+            return DV
         if k == "arrd":
             # a named array "a" of members that build derives by themselves (Default given nothing)
             if op != "sizeof":
@@ -241,6 +271,8 @@ def simulate(shape, op):
                     sc["x"] = v
                 if m[0] == "arrd" and op != "sizeof" and not sizing:
                     sc["a"] = v
+                if m[0] == "rep" and op != "sizeof" and not sizing:
+                    sc["r"] = v
             if k == "union" and len(node) > 2 and op == "parse":
                 sel = resolve(node[2], ch2)
                 obs.append({"sid": "sel", "path": node[2], "value": sel})
@@ -275,6 +307,20 @@ def mk_construct(shape, Spy, log, sidc):
         return C.Byte if len(shape) == 1 else C.Default(C.Byte, DV)
     if k == "spy":
         return Spy(next(sidc), log)
+    if k == "rep":
+        rk, n, discard = shape[1], shape[2], shape[3]
+        if rk == "array":
+            return C.Array(n, C.Byte, discard=discard)
+        if rk == "greedy":
+            return C.FixedSized(n, C.GreedyRange(C.Byte, discard=discard))
+        cnt = {"n": n}
+        return C.RepeatUntil(lambda obj, lst, ctx, _c=cnt: ctx._index >= _c["n"] - 1, C.Byte, discard=discard)
+    if k == "deplen":
+        return C.Bytes(C.len_(C.this.r))
+    if k == "fwdu":
+        return C.Rebuild(C.Byte, C.this._y)
+    if k == "yu":
+        return C.Byte
     if k == "arrd":
         return C.Array(shape[1], C.Default(C.Byte, DV))
     if k == "depa":
@@ -294,6 +340,8 @@ def mk_construct(shape, Spy, log, sidc):
                 names["x"] += 1
             elif m[0] == "arrd":
                 nm = "a"
+            elif m[0] in ("rep", "fwdu", "yu"):
+                nm = {"rep": "r", "fwdu": "c", "yu": "_y"}[m[0]]
             else:
                 nm = "m%d" % i
             ms.append(nm / c)
@@ -342,6 +390,14 @@ def build_value(shape, key=()):
         return None
     if k == "dep":
         return ("dep", shape[1])
+    if k == "rep":
+        return list(range(1, shape[2] + 1))
+    if k == "deplen":
+        return ("dep", "len_(this.r)")
+    if k == "fwdu":
+        return None
+    if k == "yu":
+        return DV
     if k == "arrd":
         return [None] * shape[1]
     if k == "depa":
@@ -353,7 +409,9 @@ def build_value(shape, key=()):
         for i, m in enumerate(shape[1]):
             if m[0] == "x" and len(m) > 1:
                 continue                       # derived: not supplied
-            d["x" if m[0] == "x" else "a" if m[0] == "arrd" else "m%d" % i] = build_value(m, key + (i,))
+            if m[0] == "fwdu":
+                continue
+            d["x" if m[0] == "x" else {"arrd": "a", "rep": "r", "yu": "_y"}.get(m[0], "m%d" % i)] = build_value(m, key + (i,))
         if k == "focused":
             first = shape[1][0]
             return d["x" if first[0] == "x" else "m0"]
@@ -588,6 +646,17 @@ def enumerate_small():
             out.append([ok, [["arrd", 2], ["depa", i], ["spy"]]])
             out.append(["struct", [["x"], [ok, [["spy"], ["arrd", 3], ["depa", i], ["dep", "this._.x"]]]]])
             out.append(["array", 2, [ok, [["arrd", 2], ["depa", i]]], False])
+    # what later siblings see of a repeater, with and without discard; a member rebuilt from a later sibling named _y
+    for rk in ("array", "greedy", "until"):
+        for discard in (False, True):
+            for n in (1, 3):
+                out.append(["struct", [["rep", rk, n, discard], ["deplen"], ["spy"]]])
+                out.append(["struct", [["x"], ["struct", [["rep", rk, n, discard], ["spy"], ["deplen"]]]]])
+                out.append(["array", 2, ["struct", [["rep", rk, n, discard], ["deplen"]]], False])
+    out.append(["struct", [["fwdu"], ["spy"], ["yu"]]])
+    out.append(["struct", [["x"], ["struct", [["fwdu"], ["yu"], ["spy"]]]]])
+    out.append(["array", 2, ["struct", [["fwdu"], ["yu"]]], False])
+    out.append(["lazystruct", [["fwdu"], ["yu"]]])
     # Unions whose continuation member is selected by a context expression
     for sel in DEP_PATHS:
         out.append(["struct", [["x"], ["union", [["x"], ["spy"]], sel], ["x", "d"]]] if False else ["struct", [["x"], ["struct", [["union", [["x"], ["spy"]], sel], ["spy"]]]]])
